@@ -59,7 +59,7 @@ impl Prop for C03 {
             kind_weights: [1, 1, 10, 1],
             p_limit: 0.15,
             p_counter: 0.1,
-            w_end: 0,
+            w_end: 1,
             w_signal: 1,
             ..MachineParams::default()
         };
